@@ -9,14 +9,15 @@ import yaml
 
 from .. import corr, lean, tables
 
-STREAMS = ["table-regeneration", "documents"]
+STREAMS = ["table-regeneration", "documents", "documents-without-libyaml"]
 DRIVER_DEPENDS_ON_GENERATED = True
 RULE = ("the constructor tables of the loader class that core.config.load hands to PyYAML are introspected from the "
         "live class and re-emitted as Lean data (table_safe is re-proved against them); documents = every python/* tag "
         "kind known to PyYAML x target names (builtins, os / subprocess functions, a cobald class, a canary function, "
         "a not-yet-imported canary module) x positions (top level, pipeline element, argument of an eager and of a "
-        "lazy registered tag, nested) x argument shapes, plus unregistered !tags and benign documents; each document "
-        "is loaded in a child process through core.config.load and yaml.load(..., COBalDLoader) with canaries armed; "
+        "lazy registered tag - as value, as key and as sequence item -, nested, inside pipeline elements) x argument shapes, plus unregistered !tags and benign documents; each document "
+        "is loaded in a child process through core.config.load and yaml.load(..., COBalDLoader) with canaries armed, and "
+        "once more in a child process where PyYAML's C extension is unavailable (the loader tables must be the same there); "
         "non-trivial = a document with a python/* or unregistered tag; distinct = distinct YAML text")
 ASSUMPTIONS = ["PyYAML's scanner / parser / composer / resolver (text -> node tags) are trusted: the model starts from the composed node tree",
                "construct_object dispatches as modelled: exact tag, then multi-constructor prefixes, then the None entries"]
@@ -49,6 +50,8 @@ with open(os.environ["VH_CANARY_FILE"], "a") as f:
 
 CHILD = r'''
 import json, os, sys, builtins, subprocess
+if os.environ.get("VH_NO_LIBYAML"):
+    sys.modules["yaml._yaml"] = None      # PyYAML without its optional C extension
 sys.path.insert(0, os.environ["VH_CANARY_DIR"])
 import vh_canary
 def _rec(name):
@@ -93,7 +96,12 @@ for case in json.load(open(sys.argv[1])):
         builtins.eval, builtins.exec = _eval, _exec
     res["unimported_loaded"] = "vh_canary_unimported" in sys.modules
     out.append(res)
-json.dump(out, open(sys.argv[2], "w"))
+def _kind(fn):
+    return "%s.%s" % (getattr(fn, "__module__", "?"), getattr(fn, "__qualname__", "?"))
+table = {"mro": [c.__module__ + "." + c.__name__ for c in COBalDLoader.__mro__],
+         "exact": sorted([str(k), _kind(v)] for k, v in COBalDLoader.yaml_constructors.items()),
+         "multi": sorted([str(k), _kind(v)] for k, v in COBalDLoader.yaml_multi_constructors.items())}
+json.dump({"results": out, "table": table}, open(sys.argv[2], "w"))
 '''
 
 
@@ -123,7 +131,8 @@ def gen_doc(rng):
     else:
         val = rng.choice(["1", "[1, 2]", "{a: b}", '"text"', "2001-12-14", "!!set {a, b}", "!!binary aGVsbG8="])
         bad = None
-    pos = rng.choice(["top", "pipeline-element", "eager-arg", "lazy-arg", "nested", "key"])
+    pos = rng.choice(["top", "pipeline-element", "eager-arg", "lazy-arg", "nested", "key", "eager-key", "lazy-key",
+                      "eager-seq", "lazy-seq", "pipeline-arg", "pipeline-key", "deep-lazy"])
     if pos == "top":
         text = "__config_test:\n  x: %s\npipeline: []\n" % val
     elif pos == "pipeline-element":
@@ -134,6 +143,20 @@ def gen_doc(rng):
         text = "__config_test:\n  y: !LinearController\n    rate: %s\npipeline: []\n" % val
     elif pos == "nested":
         text = "__config_test:\n  y:\n    - [1, {k: [%s]}]\npipeline: []\n" % val
+    elif pos == "eager-key":
+        text = "__config_test:\n  y: !__yaml_tag_test\n    ? %s\n    : 1\npipeline: []\n" % val
+    elif pos == "lazy-key":
+        text = "__config_test:\n  y: !LinearController\n    ? %s\n    : 1\npipeline: []\n" % val
+    elif pos == "eager-seq":
+        text = "__config_test:\n  y: !__yaml_tag_test\n    - 1\n    - %s\npipeline: []\n" % val
+    elif pos == "lazy-seq":
+        text = "__config_test:\n  y: !LinearController\n    - %s\npipeline: []\n" % val
+    elif pos == "pipeline-arg":
+        text = "pipeline:\n  - !LinearController\n    low_utilisation: %s\n  - !Standardiser\n    minimum: 1\n" % val
+    elif pos == "pipeline-key":
+        text = "pipeline:\n  - !LinearController\n    ? %s\n    : 0.5\n" % val
+    elif pos == "deep-lazy":
+        text = "__config_test:\n  y: !LinearController\n    rate:\n      - {k: [1, {j: %s}]}\npipeline: []\n" % val
     else:
         text = "__config_test:\n  ? %s\n  : 1\npipeline: []\n" % val
     return {"text": text, "bad": bad, "pos": pos}
@@ -175,8 +198,18 @@ def run(ctx):
         open(os.path.join(tmp, "child.py"), "w").write(CHILD)
         env = dict(os.environ, VH_CANARY_FILE=marker, VH_CANARY_DIR=tmp)
         # canary attribution: run in chunks so that a fired canary can be pinned to a document
-        res = run_child(tmp, cases, env)
+        res, table = run_child(tmp, cases, env)
         fired = open(marker).read().split()
+        # the same documents in an environment where PyYAML lacks its C extension (pure-Python
+        # install): the loader must be the same safe one there
+        res2, table2 = run_child(tmp, cases, dict(env, VH_NO_LIBYAML="1"))
+        fired += ["no-libyaml:" + x for x in open(marker).read().split()[len(fired):]]
+        ctx.notes["loader_table_entries"] = len(table["exact"])
+        if table2 != table:
+            diff = {"mro": [table["mro"], table2["mro"]],
+                    "exact": [x for x in table2["exact"] if x not in table["exact"]][:10],
+                    "multi": [x for x in table2["multi"] if x not in table["multi"]][:10]}
+            ctx.disagree("documents-without-libyaml", {"environment": "yaml._yaml unavailable"}, diff, "the loader tables of the regenerated Lean table")
         # model verdicts
         reqs, comp_err = [], {}
         for i, d in enumerate(docs):
@@ -199,6 +232,12 @@ def run(ctx):
             if d["bad"] and not impl_err:
                 ctx.violation("dangerous-document-accepted", "document using a %s tag at %s was not rejected: %r -> %r" % (d["bad"], d["pos"], d["text"], r), d)
             if r.get("unimported_loaded"):
+                ctx.violation("module-imported", "loading imported a module named by the document: %r" % d["text"], d)
+            r2 = res2[i]
+            ctx.count("documents-without-libyaml", d["text"], d["bad"] is not None)
+            if d["bad"] and not (r2["load"].startswith("error") and r2["yaml"].startswith("error")):
+                ctx.violation("dangerous-document-accepted-without-libyaml", "without PyYAML's C extension, a document using a %s tag at %s was not rejected: %r -> %r" % (d["bad"], d["pos"], d["text"], r2), d)
+            if r2.get("unimported_loaded"):
                 ctx.violation("module-imported", "loading imported a module named by the document: %r" % d["text"], d)
             m = model.get(i)
             if m is not None and "driver_error" not in m:
@@ -223,7 +262,9 @@ def run_child(tmp, cases, env):
                        env=env, capture_output=True, text=True, timeout=1200)
     if not os.path.exists(out):
         raise RuntimeError("C18 child failed: %s" % p.stderr[-2000:])
-    return json.load(open(out))
+    data = json.load(open(out))
+    os.unlink(out)
+    return data["results"], data["table"]
 
 
 def replay(payload):
